@@ -205,7 +205,7 @@ func init() {
 				budget = pick(r, []int{1500, 4000, 20000})
 			}
 			s := &C02Spec{Seed: seed, Budget: budget, Levels: 1 + r.Intn(2), Orders: genOrders(r, seed)}
-			o := charOpt{small: true, budget: int64(budget), maxLen: 6, maxReq: 4, noEmptied: r.Chance(0.8)}
+			o := charOpt{small: true, budget: int64(budget), maxLen: 6, maxReq: 4, noEmptied: r.Chance(0.6)}
 			if r.Chance(0.45) {
 				o.budget = int64(pick(r, []int{16, 40, 80})) // tiny: deep sweeps through one or two rejected candidates are affordable
 			}
